@@ -1,6 +1,6 @@
 (* C15/Registry.v — entry points used by the correspondence check *)
 From Coq Require Import ZArith List String.
-From FV Require Import Base.Ser Base.Res C15.Model C15.ModelDeltas.
+From FV Require Import Base.Ser Base.Res C15.Model C15.ModelDeltas C15.ModelPoints.
 Import ListNotations.
 Open Scope string_scope.
 
@@ -18,6 +18,8 @@ Definition reg : registry := [
   ("decrypt", run2 decrypt);
   ("encrypt", run2 encrypt);
   ("compileDeltaValues", run1 compileDeltaValues);
-  ("decompileDeltas", run2 decompileDeltas)
+  ("decompileDeltas", run2 decompileDeltas);
+  ("compilePoints", run1 compilePoints);
+  ("decompilePoints", run1 decompilePoints)
 ].
 Definition fv_entry := dispatch reg.
